@@ -856,3 +856,96 @@ func domCondsKindOnly(b *ssa.BasicBlock) []Cond {
 	}
 	return out
 }
+
+// ---------------------------------------------------------------- header shape of string / binary destinations
+
+// A STRING field is a Go string (two words) unless its tag is T_binary, in which case it is a []byte (three words). The decoder
+// writes the destination through a cast of the raw pointer; the cast must agree with the tag on every path: a slice header
+// written into a string destination overwrites the neighbouring word, a string header written into a []byte leaves its
+// capacity word as it was.
+func headerShape(c *Ctx, s *obSink) {
+	tbin, ok := c.constOf(pkgDefs, "T_binary")
+	if !ok {
+		s.bad("header-shape", "-", "constant defs.T_binary not found")
+		return
+	}
+	nBytes, nStr := 0, 0
+	for _, fn := range c.ModuleFuncs(pkgReflect) {
+		hasDesc := false
+		for _, p := range fn.Params {
+			if namedOf(p.Type()) == "tType" {
+				hasDesc = true
+			}
+		}
+		if !hasDesc {
+			continue
+		}
+		for _, b := range fn.Blocks {
+			for _, ins := range b.Instrs {
+				st, isSt := ins.(*ssa.Store)
+				if !isSt {
+					continue
+				}
+				cv, isCv := st.Addr.(*ssa.Convert)
+				if !isCv || !isUnsafePointer(cv.X.Type()) {
+					continue
+				}
+				if _, isParam := cv.X.(*ssa.Parameter); !isParam {
+					continue
+				}
+				pt, isPtr := cv.Type().Underlying().(*types.Pointer)
+				if !isPtr {
+					continue
+				}
+				wantBinary := false
+				switch {
+				case isByteSlice(pt.Elem()):
+					wantBinary = true
+					nBytes++
+				case types.Identical(pt.Elem().Underlying(), types.Typ[types.String]):
+					nStr++
+				default:
+					continue
+				}
+				known, isBinary := false, false
+				for _, cd := range domConds(b) {
+					bo, isB := cd.V.(*ssa.BinOp)
+					if !isB || bo.Op != token.EQL && bo.Op != token.NEQ {
+						continue
+					}
+					x, y := bo.X, bo.Y
+					if _, isC := constInt(x); isC {
+						x, y = y, x
+					}
+					k, isC := constInt(y)
+					if !isC || k != tbin || !strings.HasSuffix(path(x), ".Tag") {
+						continue
+					}
+					known = true
+					isBinary = (bo.Op == token.EQL) == cd.Truth
+				}
+				what := "string"
+				if wantBinary {
+					what = "[]byte"
+				}
+				key := shortFn(fn) + ":header-shape:" + what
+				switch {
+				case !known:
+					s.bad(key, c.InstrPos(st), "the destination is written as a "+what+" header without a dominating test of the descriptor's Tag against T_binary: "+c.srcLine(st.Pos()))
+				case isBinary != wantBinary:
+					s.bad(key, c.InstrPos(st), "the destination is written as a "+what+" header on the path where the tag says the opposite (a three-word header over a two-word string overwrites the next field; a two-word header leaves a stale capacity): "+c.srcLine(st.Pos()))
+				default:
+					s.ok(key, c.InstrPos(st), "written as "+what+" exactly where Tag "+map[bool]string{true: "==", false: "!="}[wantBinary]+" T_binary")
+				}
+			}
+		}
+	}
+	if nBytes == 0 || nStr == 0 {
+		s.bad("header-shape", "-", fmt.Sprintf("expected the decoder to write string destinations through both a []byte and a string cast selected by the tag; found %d and %d such stores", nBytes, nStr))
+	}
+}
+
+func init() {
+	registerExtra("T7.reader-lens", headerShape)
+	registerExtra("E9.input-alias", headerShape)
+}
